@@ -209,3 +209,40 @@ pub fn run_dispatch(r: &mut Recorded, world: &World, opts: &ExecOpts) -> ExecSta
     r.rec.events.append(&mut evs);
     stats
 }
+
+/// C13: Dispatcher::setup on a world in which `pre` already exist (distinctive values),
+/// optionally repeated, then Dispatcher::dispose.  Every harness system logs its own
+/// setup / dispose callback.
+pub fn lifecycle(r: &mut Recorded, pre: &[crate::prog::Res], repeat: usize, dispatch_between: bool) {
+    let ctx = r.rec.ctx.clone();
+    ctx.claim_caller();
+    ctx.setup_log.store(true, Ordering::Relaxed);
+    ctx.log_exec.store(true, Ordering::Relaxed);
+    let mut world = World::empty();
+    for res in pre {
+        ctx.cell(*res).insert(&mut world, 5000 + *res);
+    }
+    let mut evs: Vec<Value> = Vec::new();
+    for round in 0..repeat.max(1) {
+        evs.push(world_event("presetup", &ctx, &world));
+        ctx.ev(json!({"ev":"setupcall","d":r.top,"phase":"begin"}));
+        let res = catch_unwind(AssertUnwindSafe(|| r.dispatcher.as_mut().unwrap().setup(&mut world)));
+        evs.append(&mut ctx.take_log());
+        let (rid, val) = world_values(&ctx, &world);
+        evs.push(json!({"ev":"setupcall","d":r.top,"phase":"end","out": if res.is_ok() {"ok"} else {"panic"},"rid":rid,"val":val}));
+        if dispatch_between && round == 0 {
+            // a dispatch between two setups: the second setup must not reset anything
+            r.rec.events.append(&mut evs);
+            r.rec.events.push(world_event("world0", &ctx, &world));
+            let opts = ExecOpts { mode: Mode::Disp, gated: false, quiet_us: 200, seed: 1, jitter_us: 0, panics: vec![], policy: 0 };
+            run_dispatch(r, &world, &opts);
+            ctx.claim_caller();
+        }
+    }
+    ctx.ev(json!({"ev":"disposecall","d":r.top,"phase":"begin"}));
+    let d = r.dispatcher.take().unwrap();
+    let res = catch_unwind(AssertUnwindSafe(move || d.dispose(&mut world)));
+    evs.append(&mut ctx.take_log());
+    evs.push(json!({"ev":"disposecall","d":r.top,"phase":"end","out": if res.is_ok() {"ok"} else {"panic"}}));
+    r.rec.events.append(&mut evs);
+}
